@@ -10,10 +10,18 @@ def cases_fn(nonclone=True):
     def make(rng, nbase):
         cases = []
         k = 0
-        for b in range(nbase):
+        forced = ["map", "map", "set", "set", "vec", "option"]
+        for b in range(nbase + len(forced)):
             g = tgen.Gen(rng)
-            # non-Copy payloads: strings, vectors, structs and enums holding them
-            t = g.gen_type(rng.choice([0, 1, 1, 2]), allow=("atom", "option", "vec", "tuple", "struct", "enum"))
+            # non-Copy payloads: strings, vectors, structs and enums holding them; maps and sets (every std map is non-Copy)
+            if b < len(forced):
+                t = None
+                for _ in range(30):
+                    t = g.gen_type(2, allow=(forced[b],))
+                    if t[0] == forced[b]:
+                        break
+            else:
+                t = g.gen_type(rng.choice([0, 1, 1, 2]), allow=("atom", "option", "vec", "tuple", "struct", "enum"))
             if t[0] in ("int", "bool", "char", "f64", "strref"):
                 t = ("string",)
             v0 = g.gen_val(t)
